@@ -7,6 +7,8 @@ type nat =
 
 val fst : ('a1 * 'a2) -> 'a1
 
+val snd : ('a1 * 'a2) -> 'a2
+
 val length : 'a1 list -> nat
 
 val app : 'a1 list -> 'a1 list -> 'a1 list
@@ -20,30 +22,27 @@ val compOpp : comparison -> comparison
 
 val add : nat -> nat -> nat
 
-val sub : nat -> nat -> nat
-
-module Nat :
- sig
-  val eqb : nat -> nat -> bool
-
-  val leb : nat -> nat -> bool
- end
+val tl : 'a1 list -> 'a1 list
 
 val nth : nat -> 'a1 list -> 'a1 -> 'a1
 
-val rev : 'a1 list -> 'a1 list
+val removelast : 'a1 list -> 'a1 list
+
+val concat : 'a1 list list -> 'a1 list
 
 val map : ('a1 -> 'a2) -> 'a1 list -> 'a2 list
 
+val fold_left : ('a1 -> 'a2 -> 'a1) -> 'a2 list -> 'a1 -> 'a1
+
 val fold_right : ('a2 -> 'a1 -> 'a1) -> 'a1 -> 'a2 list -> 'a1
 
-val existsb : ('a1 -> bool) -> 'a1 list -> bool
+val forallb : ('a1 -> bool) -> 'a1 list -> bool
+
+val filter : ('a1 -> bool) -> 'a1 list -> 'a1 list
 
 val firstn : nat -> 'a1 list -> 'a1 list
 
-val seq : nat -> nat -> nat list
-
-val repeat : 'a1 -> nat -> 'a1 list
+val skipn : nat -> 'a1 list -> 'a1 list
 
 type positive =
 | XI of positive
@@ -95,6 +94,8 @@ module Pos :
 
   val ldiff : positive -> positive -> n
 
+  val coq_lxor : positive -> positive -> n
+
   val iter_op : ('a1 -> 'a1 -> 'a1) -> positive -> 'a1 -> 'a1
 
   val to_nat : positive -> nat
@@ -112,7 +113,11 @@ module N :
 
   val coq_lor : n -> n -> n
 
+  val coq_land : n -> n -> n
+
   val ldiff : n -> n -> n
+
+  val coq_lxor : n -> n -> n
 
   val to_nat : n -> nat
 
@@ -137,21 +142,15 @@ module Z :
 
   val mul : z -> z -> z
 
-  val pow_pos : z -> positive -> z
-
-  val pow : z -> z -> z
-
   val compare : z -> z -> comparison
 
   val leb : z -> z -> bool
 
   val ltb : z -> z -> bool
 
-  val geb : z -> z -> bool
-
-  val gtb : z -> z -> bool
-
   val eqb : z -> z -> bool
+
+  val min : z -> z -> z
 
   val to_nat : z -> nat
 
@@ -167,140 +166,189 @@ module Z :
 
   val div : z -> z -> z
 
-  val modulo : z -> z -> z
-
   val div2 : z -> z
 
   val shiftl : z -> z -> z
 
   val shiftr : z -> z -> z
 
+  val coq_lor : z -> z -> z
+
   val coq_land : z -> z -> z
+
+  val coq_lxor : z -> z -> z
  end
 
-val wrap32 : z -> z
+val kInfiniteEnd : z
 
-val tABLE : z list
+val ulong_max : z
 
-val iNV_TABLE : z list
+val dedupe_default_fields : z list
 
-val enc_val0 : z
+val dedupe_default_delim : z
 
-val enc_valb0 : z
+val shard_default_fields : z list
 
-val enc_shift : z
+val shard_default_delim : z
 
-val enc_valb_add : z
+val cache_default_key : z list
 
-val enc_loop_bound : z
+val cache_default_separator : z
 
-val enc_mask : z
+val murmur_m : z
 
-val enc_valb_sub : z
+val murmur_r : z
 
-val enc_tail_bound : z
+val murmur_block : z
 
-val enc_tail_shl : z
+val murmur_tail_mask : z
 
-val enc_tail_add : z
+val murmur_tail_cases : ((z * nat) * z) list
 
-val enc_tail_mask : z
+val murmur_tail_mul_case : z
 
-val enc_pad_mod : z
+val shard_seed : z
 
-val pad_char : z
+val dedupe_line_seed : z
 
-val dec_val0 : z
+val dedupe_field_seed : z
 
-val dec_valb0 : z
+val cache_seed : z
 
-val dec_pad_char : z
+val mask64 : z
 
-val dec_reject : z
+val w64 : z -> z
 
-val dec_shift : z
+val mul64 : z -> z -> z
 
-val dec_valb_add : z
+val word_bytes : nat
 
-val dec_out_bound : z
+val load_le : nat -> z list -> z
 
-val dec_mask : z
+val mix_k : z -> z
 
-val dec_valb_sub : z
+val mm_body : nat -> z list -> z -> z * z list
 
-val tbl : z -> z
+val tail_case : z -> z list -> z -> ((z * nat) * z) -> z
 
-val inv : z -> z
+val mm_tail : z -> z list -> z -> z
 
-val sel : z -> z -> z -> z
+val murmur64a_mem : z list -> z -> z -> z
 
-val enc_drain : nat -> z -> z -> (z list * z) option
+val murmur64a : z list -> z -> z
 
-val drain_fuel : nat
+val murmur_native : z list -> z -> z
 
-val enc_bytes : z list -> z -> z -> ((z list * z) * z) option
+val hash_fold : z -> z list list -> z
 
-val enc_pad : nat -> z list
+val dedupe_line_key : z list -> z
 
-val base64_encode : z list -> z list option
+type range = z * z
 
-type dres =
-| DOk of z list
-| DBadChar of z
-| DLengthError
+val is_digit : z -> bool
 
-val count_padding_aux : z list -> nat * bool
+val digits_value : z -> z list -> z * z list
 
-val count_padding : z list -> nat
+type perr =
+| PNotNumber
+| POutOfRange
+| PEmptyRange
+| PBadSeparator
+| PEmptyList
+| PTrailingComma
+| PFuel
 
-val dec_loop : z list -> z -> z -> dres
+type 'a pres =
+| POk of 'a
+| PErr of perr
 
-val base64_decode : z list -> dres
+val consume_int : z list -> (z * z list) pres
 
-val b64_alphabet : z list
+val comma : z
 
-val alpha : z -> z
+val dash : z
 
-val rfc4648 : z list -> z list
+val head0 : z list -> z
 
-val strip_padding : z list -> z list
+val parse_one : z list -> (range * z list) pres
 
-val split_at : z -> z list -> z list -> z list list * z list
+val parse_loop : nat -> z list -> range list pres
 
-val strip_cr : z list -> z list
+val parse_fields : z list -> range list pres
 
-val records : z -> bool -> z list -> z list list
+val insert_range : range -> range list -> range list
 
-val docenc_encode_strip_cr : bool
+val sort_ranges : range list -> range list
 
-val docenc_decode_strip_cr : bool
+val defrag_loop : range -> range list -> range list option
 
-val docenc_indices_unique : bool
+val defragment : range list -> range list option
 
-val docenc_rejects_index_zero : bool
+val parse_key_spec : z list -> range list option
 
-type tres =
-| TOk of z list
-| TAbort
-| TFuel
-| TUsage
+val find_delim : z -> z list -> z list * z list option
 
-val insert_sorted : nat -> nat list -> nat list
+type skipres =
+| SkipAt of z * z list
+| SkipReturn
+| SkipFuel
 
-val sort_nat : nat list -> nat list
+val skip_fields : nat -> z -> z -> z -> z list -> skipres
 
-val uniq_adjacent : nat list -> nat list
+type takeres =
+| TakeEnd of z list
+| TakeUpTo of z * z list * z list
+| TakeBadLength
+| TakeFuel
 
-val norm_indices : nat list -> nat list
+val take_fields : nat -> z -> z -> z -> z list -> z list -> takeres
 
-val is_nil : 'a1 list -> bool
+type rres =
+| ROk of z list list
+| RBadLength
+| RFuel
 
-val dec_docs : bool -> z -> z list list -> nat -> nat list -> tres
+val rcons : z list -> rres -> rres
 
-val decode_tool : z -> nat list -> z list -> tres
+val range_fields_loop : nat -> z -> range list -> z -> z list -> rres
 
-val take_doc : bool -> z list list -> z list -> (z list * z list list) * bool
+val range_fields : z list -> range list -> z -> rres
 
-val enc_docs : nat -> bool -> bool -> z list list -> nat -> nat list -> tres
+type ires =
+| IOk of z list list
+| IFuel
 
-val encode_tool : z -> nat list -> z list -> tres
+type eachres =
+| EachEnd of z list list
+| EachUpTo of z * z list * z list list
+| EachFuel
+
+val each_field : nat -> z -> z -> z -> z list -> eachres
+
+val individual_fields_loop : nat -> z -> range list -> z -> z list -> ires
+
+val individual_fields : z list -> range list -> z -> ires
+
+val key_of : z -> z list -> range list -> z -> z option
+
+val shard_key : z list -> range list -> z -> z option
+
+val dedupe_key : z list -> range list -> z -> z option
+
+val cache_key_of : z list -> range list -> z -> z option
+
+val split_fields : z -> z list -> z list list
+
+val join_fields : z -> z list list -> z list
+
+val select_from : z list list -> z -> range -> z list list
+
+val select_range : z list list -> range -> z list list
+
+val select : z list list -> range list -> z list list list
+
+val spec_pieces : z -> z list -> range list -> z list list
+
+val spec_individual : z -> z list -> range list -> z list list
+
+val contains_allb : z -> range list -> bool
